@@ -135,13 +135,21 @@ def run_admission(ctx, out):
     s = srv.Server(ctx, "adm", CONF % (KA, RD, WR, 'server.max-connections = 6\n$SERVER["socket"] == "127.0.0.1:%d" { }\n' % p2), files={"/small.txt": b"small-file\n"}, modules=[]).start()
     try:
         held = []
-        for _ in range(6):
+        for _ in range(5):
             so = socket.socket(); so.connect(("127.0.0.1", s.port)); so.sendall(b"GET /small.txt HT"); held.append(so)
         time.sleep(0.3)
-        # knock on both listening sockets at once while every slot is taken
+        # one slot is left.  Freeze the server, let a sixth stalled client and four complete requests queue up on BOTH listening sockets, thaw it:
+        # the two listen-socket events arrive in one poll result, so the second handler runs when the first has just used up the budget
+        import signal
+        os.kill(s.proc.pid, signal.SIGSTOP)
         late = []
-        for port in (s.port, p2, s.port, p2):
-            so = socket.socket(); so.settimeout(0.05); so.connect(("127.0.0.1", port)); so.sendall(b"GET /small.txt HTTP/1.1\r\nHost: h\r\nConnection: close\r\n\r\n"); late.append(so)
+        try:
+            so = socket.socket(); so.connect(("127.0.0.1", s.port)); so.sendall(b"GET /small.txt HT"); held.append(so)
+            for port in (p2, s.port, p2, s.port):
+                so = socket.socket(); so.settimeout(0.05); so.connect(("127.0.0.1", port)); so.sendall(b"GET /small.txt HTTP/1.1\r\nHost: h\r\nConnection: close\r\n\r\n"); late.append(so)
+            time.sleep(0.1)
+        finally:
+            os.kill(s.proc.pid, signal.SIGCONT)
         t0 = time.time(); got = [None] * 4; data = [b""] * 4
         for so in held: so.settimeout(0.0)
         while time.time() - t0 < RD + 9 and any(g is None for g in got):
@@ -160,7 +168,8 @@ def run_admission(ctx, out):
                 except OSError: got[i] = time.time() - t0
         out["admission"] = dict(answer_times=got)
         early = [g for g, d in zip(got, data) if g is not None and g < 1.0 and b"small-file" in d]
-        if early: out["viol"].append(("%d connection(s) beyond server.max-connections = 6 were served at once (after %.2f s) while all six slots were held by stalled clients" % (len(early), min(early)), "admission-excess"))
+        # one slot was free: at most one of the queued clients may be admitted before a stalled one times out
+        if len(early) > 1: out["viol"].append(("%d connections were admitted at once (after %.2f s) when one slot was left under server.max-connections = 6 (five held by stalled clients, five more queued on two listening sockets)" % (len(early), min(early)), "admission-excess"))
         if any(g is None or b"small-file" not in d for g, d in zip(got, data)):
             out["viol"].append(("clients waiting behind a full server were not all served after the stalled connections timed out (%s)" % got, "admission-stall"))
         for so in held + late: so.close()
